@@ -128,6 +128,10 @@ func (n *nativeRunner) schedOverlay() (string, error) {
 			default:
 				continue
 			}
+			if dir == "websocket" && name == "handler.go" {
+				// the engine treats queueing a message for a client as a scheduling point: same hook natively
+				nb = bytes.ReplaceAll(nb, []byte("\th.sendChan <- msg\n"), []byte("\tsync.Point()\n\th.sendChan <- msg\n"))
+			}
 			k++
 			dst := filepath.Join(n.work, fmt.Sprintf("sched_%d_%s", k, name))
 			if err := os.WriteFile(dst, nb, 0o644); err != nil {
